@@ -252,3 +252,180 @@ Proof.
   destruct (al_locked s) eqn:El; [left; auto|]. right. specialize (Iw eq_refl).
   destruct (al_waiters s) as [|w r]; [congruence|]. eauto.
 Qed.
+
+(* ---- the fairness asyncio.Lock has: FIFO among the live (non-cancelled) waiters; a newcomer can only overtake
+   waiters whose future is already cancelled (they will never take the lock) *)
+From Coq Require Import Sorting.Sorted ZifyBool.
+
+Definition live (w : awaiter) : bool := negb (is_cancelled w).
+Definition al_line (s : al) : list nat := al_acq s ++ map aw_ticket (filter live (al_waiters s)).
+Definition al_all (s : al) : list nat := al_acq s ++ map aw_ticket (al_waiters s) ++ al_gone s.
+
+Record al_tk (s : al) : Prop := mkATk {
+  atk_sorted : StronglySorted lt (al_line s);
+  atk_bound : Forall (fun k => k < al_next s) (al_line s);
+  atk_count : forall k, count_occ Nat.eq_dec (al_all s) k = if k <? al_next s then 1 else 0
+}.
+
+Lemma al_tk_init : al_tk al_init.
+Proof. constructor; simpl; auto; constructor. Qed.
+
+Lemma aw_Forall_filter_map : forall (P : nat -> Prop) f (ws : list awaiter),
+  Forall P (map aw_ticket ws) -> Forall P (map aw_ticket (filter f ws)).
+Proof.
+  intros P f ws H. rewrite Forall_forall in *. intros x Hx. apply H.
+  apply in_map_iff in Hx. destruct Hx as [w [E Hw]]. apply filter_In in Hw. apply in_map_iff. exists w; tauto.
+Qed.
+
+Lemma aw_ss_filter : forall f a (ws : list awaiter),
+  StronglySorted lt (a ++ map aw_ticket ws) -> StronglySorted lt (a ++ map aw_ticket (filter f ws)).
+Proof.
+  intros f a; induction a as [|x a IH]; simpl; intros ws H.
+  - induction ws as [|w r IHr]; simpl in *; auto.
+    inversion H; subst. destruct (f w); simpl; auto. constructor; auto. apply aw_Forall_filter_map; auto.
+  - inversion H; subst. constructor; auto.
+    apply Forall_app in H3. destruct H3 as [Ha Hw]. apply Forall_app; split; auto. apply aw_Forall_filter_map; auto.
+Qed.
+
+Lemma all_cancelled_no_live : forall ws, forallb is_cancelled ws = true -> filter live ws = [].
+Proof.
+  induction ws as [|w r IH]; simpl; intros H; auto. apply andb_true_iff in H. destruct H as [H1 H2].
+  unfold live. rewrite H1. simpl. auto.
+Qed.
+
+Lemma live_wake_first : forall ws, map aw_ticket (filter live (al_wake_first ws)) = map aw_ticket (filter live ws).
+Proof.
+  intros [|w r]; simpl; auto. destruct (is_pending w) eqn:P; auto. simpl.
+  unfold live, is_cancelled, is_pending in *. simpl. destruct (aw_st w); try discriminate. reflexivity.
+Qed.
+
+Lemma live_remove : forall t ws, filter live (al_remove t ws) = filter (fun w => negb (aw_is t w)) (filter live ws).
+Proof.
+  intros t ws. unfold al_remove. induction ws as [|w r IH]; simpl; auto.
+  destruct (negb (aw_is t w)) eqn:A; destruct (live w) eqn:L; simpl; rewrite ?A, ?L; simpl; rewrite IH; reflexivity.
+Qed.
+
+Lemma live_futcancel : forall t ws,
+  map aw_ticket (filter live (map (fun x => if aw_is t x then set_st WCancelled x else x) ws))
+  = map aw_ticket (filter (fun w => negb (aw_is t w)) (filter live ws)).
+Proof.
+  intros t ws. induction ws as [|w r IH]; simpl; auto.
+  destruct (aw_is t w) eqn:A; simpl.
+  - unfold live at 1. simpl. destruct (live w); simpl; rewrite ?A; simpl; exact IH.
+  - destruct (live w) eqn:L; simpl; rewrite ?A; simpl; rewrite IH; reflexivity.
+Qed.
+
+Lemma futcancel_tickets : forall t ws, map aw_ticket (map (fun x => if aw_is t x then set_st WCancelled x else x) ws) = map aw_ticket ws.
+Proof. intros t ws. rewrite map_map. apply map_ext. intros x. destruct (aw_is t x); reflexivity. Qed.
+
+Lemma aw_count_remove : forall t ws w k,
+  NoDup (map aw_tid ws) -> al_find t ws = Some w ->
+  count_occ Nat.eq_dec (map aw_ticket ws) k
+  = count_occ Nat.eq_dec (map aw_ticket (al_remove t ws)) k + (if Nat.eq_dec (aw_ticket w) k then 1 else 0).
+Proof.
+  intros t ws w k; induction ws as [|w0 r IH]; simpl; intros N F; [discriminate|].
+  inversion N; subst. unfold al_find in F. simpl in F. unfold aw_is at 1. unfold aw_is at 1 in F.
+  destruct (Nat.eqb (aw_tid w0) t) eqn:E; simpl.
+  - inversion F; subst. apply Nat.eqb_eq in E. subst t. rewrite al_remove_notin by auto.
+    destruct (Nat.eq_dec (aw_ticket w) k); lia.
+  - specialize (IH H2 F). destruct (Nat.eq_dec (aw_ticket w0) k); lia.
+Qed.
+
+Lemma al_acquire_tk : forall t s s' got, al_tk s -> al_acquire t s = (s', got) -> al_tk s'.
+Proof.
+  intros t s s' got [Ts Tb Tc] H. unfold al_acquire in H. unfold al_line, al_all in *.
+  destruct (negb (al_locked s) && forallb is_cancelled (al_waiters s)) eqn:E; inversion H; subst; clear H;
+    constructor; unfold al_line, al_all; simpl.
+  - apply andb_true_iff in E. destruct E as [_ E]. rewrite (all_cancelled_no_live _ E) in *. simpl in *.
+    rewrite app_nil_r in *. apply ss_app_single; auto.
+  - apply andb_true_iff in E. destruct E as [_ E]. rewrite (all_cancelled_no_live _ E) in *. simpl in *.
+    rewrite app_nil_r in *. apply Forall_app; split; [eapply Forall_impl; [|exact Tb]; simpl; intros; lia|constructor; auto].
+  - intros k. specialize (Tc k). repeat rewrite count_occ_app in *. simpl.
+    rewrite <- seq_count_step with (c := count_occ Nat.eq_dec (al_acq s) k + (count_occ Nat.eq_dec (map aw_ticket (al_waiters s)) k + count_occ Nat.eq_dec (al_gone s) k)); auto.
+    destruct (Nat.eq_dec (al_next s) k); lia.
+  - rewrite filter_app, map_app, app_assoc. simpl. apply ss_app_single; auto.
+  - rewrite filter_app, map_app, app_assoc. simpl. apply Forall_app; split; [eapply Forall_impl; [|exact Tb]; simpl; intros; lia|constructor; auto].
+  - intros k. specialize (Tc k). rewrite map_app. simpl. repeat rewrite count_occ_app in *. simpl.
+    rewrite <- seq_count_step with (c := count_occ Nat.eq_dec (al_acq s) k + (count_occ Nat.eq_dec (map aw_ticket (al_waiters s)) k + count_occ Nat.eq_dec (al_gone s) k)); auto.
+    destruct (Nat.eq_dec (al_next s) k); lia.
+Qed.
+
+Lemma al_futcancel_tk : forall t s s', al_tk s -> al_futcancel t s = Some s' -> al_tk s'.
+Proof.
+  intros t s s' [Ts Tb Tc] H. unfold al_futcancel in H.
+  destruct (al_find t (al_waiters s)) as [w|]; [|discriminate]. destruct (is_pending w); [|discriminate].
+  inversion H; subst; clear H. unfold al_line, al_all in *.
+  constructor; unfold al_line, al_all; simpl; rewrite ?live_futcancel, ?futcancel_tickets; auto.
+  - apply aw_ss_filter; auto.
+  - apply Forall_app in Tb. destruct Tb as [Ta Tw]. apply Forall_app; split; auto. apply aw_Forall_filter_map; auto.
+Qed.
+
+Lemma al_resume_tk : forall t s s', al_inv s -> al_tk s -> al_resume t s = Some s' -> al_tk s'.
+Proof.
+  intros t s s' [Ih Is Iw Ind Id] [Ts Tb Tc] H. unfold al_resume in H.
+  destruct (al_find t (al_waiters s)) as [w|] eqn:F; [|discriminate].
+  destruct (is_woken w) eqn:S; [|discriminate]. inversion H; subst; clear H.
+  assert (Sw : aw_st w = WWoken) by (unfold is_woken in S; destruct (aw_st w); congruence).
+  unfold al_line, al_all in *.
+  destruct (al_waiters s) as [|w0 r] eqn:EW; [discriminate|]. destruct Is as [Is1 Is2].
+  assert (w = w0) by (eapply woken_is_head; eauto). subst w0.
+  destruct (al_find_some _ _ _ F) as [_ Et]. subst t.
+  assert (RH := al_remove_head w r Ind).
+  assert (Lw : live w = true) by (unfold live, is_cancelled; rewrite Sw; reflexivity).
+  simpl in Ts, Tb. rewrite Lw in Ts, Tb. simpl in Ts, Tb.
+  constructor; unfold al_line, al_all; cbn [al_acq al_waiters al_gone al_next]; rewrite RH.
+  - rewrite <- app_assoc. exact Ts.
+  - rewrite <- app_assoc. exact Tb.
+  - intros k. specialize (Tc k). cbn [map] in Tc.
+    change (aw_ticket w :: map aw_ticket r ++ al_gone s) with ([aw_ticket w] ++ map aw_ticket r ++ al_gone s) in Tc.
+    repeat rewrite count_occ_app in *. cbn [count_occ] in *. destruct (Nat.eq_dec (aw_ticket w) k); lia.
+Qed.
+
+Lemma al_cancel_tk : forall t s s', al_inv s -> al_tk s -> al_cancel t s = Some s' -> al_tk s'.
+Proof.
+  intros t s s' [Ih Is Iw Ind Id] [Ts Tb Tc] H. unfold al_cancel in H.
+  destruct (al_find t (al_waiters s)) as [w|] eqn:F; [|discriminate].
+  destruct (is_pending w); [discriminate|]. inversion H; subst; clear H. unfold al_line, al_all in *.
+  assert (E1 : map aw_ticket (filter live (if al_locked s then al_remove t (al_waiters s) else al_wake_first (al_remove t (al_waiters s))))
+               = map aw_ticket (filter (fun x => negb (aw_is t x)) (filter live (al_waiters s)))).
+  { destruct (al_locked s); [|rewrite live_wake_first]; rewrite live_remove; reflexivity. }
+  assert (E2 : map aw_ticket (if al_locked s then al_remove t (al_waiters s) else al_wake_first (al_remove t (al_waiters s)))
+               = map aw_ticket (al_remove t (al_waiters s))).
+  { destruct (al_locked s); auto. apply wake_first_tickets. }
+  constructor; unfold al_line, al_all; simpl; rewrite ?E1, ?E2.
+  - apply aw_ss_filter; auto.
+  - apply Forall_app in Tb. destruct Tb as [Ta Tw]. apply Forall_app; split; auto. apply aw_Forall_filter_map; auto.
+  - intros k. specialize (Tc k). repeat rewrite count_occ_app in *. simpl.
+    rewrite (aw_count_remove t (al_waiters s) w k Ind F) in Tc. destruct (Nat.eq_dec (aw_ticket w) k); lia.
+Qed.
+
+Lemma al_release_tk : forall t s s', al_tk s -> al_release t s = Some s' -> al_tk s'.
+Proof.
+  intros t s s' [Ts Tb Tc] H. unfold al_release in H. destruct (al_locked s); [|discriminate]. inversion H; subst; clear H.
+  unfold al_line, al_all in *. constructor; unfold al_line, al_all; simpl; rewrite ?live_wake_first, ?wake_first_tickets; auto.
+Qed.
+
+Lemma al_step_tk : forall s l s' o, al_inv s -> al_tk s -> al_step s l = Some (s', o) -> al_tk s'.
+Proof.
+  intros s l s' o I T H. destruct l as [t|t|t|t|t]; simpl in H.
+  - destruct (al_idle t s); [|discriminate]. destruct (al_acquire t s) as [s1 got] eqn:A. inversion H; subst. eapply al_acquire_tk; eauto.
+  - destruct (al_futcancel t s) eqn:A; inversion H; subst. eapply al_futcancel_tk; eauto.
+  - destruct (al_resume t s) eqn:A; inversion H; subst. eapply al_resume_tk; eauto.
+  - destruct (al_cancel t s) eqn:A; inversion H; subst. eapply al_cancel_tk; eauto.
+  - destruct (mem_tid t (al_holders s)); [|discriminate]. destruct (al_release t s) eqn:A; inversion H; subst. eapply al_release_tk; eauto.
+Qed.
+
+Lemma al_run_tk : forall ls s s', al_inv s -> al_tk s -> al_run s ls = Some s' -> al_tk s'.
+Proof.
+  induction ls as [|l ls IH]; simpl; intros s s' I T H.
+  - inversion H; subst; auto.
+  - destruct (al_step s l) as [[s1 o]|] eqn:E; [|discriminate]. eapply IH; [| |eauto]. eapply al_step_inv; eauto. eapply al_step_tk; eauto.
+Qed.
+
+Lemma asynciolock_fifo_among_live_proof :
+  forall ls s, al_run al_init ls = Some s ->
+    StronglySorted lt (al_acq s ++ map aw_ticket (filter live (al_waiters s))) /\
+    (forall k, count_occ Nat.eq_dec (al_acq s ++ map aw_ticket (al_waiters s) ++ al_gone s) k = if k <? al_next s then 1 else 0).
+Proof.
+  intros ls s H. apply al_run_tk in H; [|apply al_inv_init|apply al_tk_init]. destruct H as [Ts Tb Tc]. split; auto.
+Qed.
